@@ -18,7 +18,7 @@ import z3
 
 import bstr
 from bstr import b8, bv, uge, ule, ult, ugt
-from symex import VStr, VBool, VChar, VInt, VStruct, VVec, VEnum, VTuple, VUnit, none, some, veq, opt, is_some, ok, TAG, Unsupported
+from symex import VStr, VBool, VChar, VInt, VStruct, VVec, VEnum, VTuple, VUnit, none, some, veq, opt, is_some, is_ok, ok, TAG, Unsupported
 
 FILES = ["/repo/sdk/src/http/restricted.rs"]
 
@@ -242,7 +242,91 @@ def make_queries(tier):
         E.cover("three headers, one dropped", z3.And(cnt.e == bv(3), n_out == bv(2)))
         E.cover("an innocuous header is forwarded", z3.And(cnt.e == bv(1), n_out == bv(1)))
 
-    return [q_localhost_names, q_missing_host, q_ipv4_literal, q_obfuscated_numeric, q_hex_labels, q_headers]
+    def q_redirect_loop(E):
+        """RedirectResolver::http_resolve: at most ten redirects are followed, none when redirects are disabled,
+        and a hop is re-issued only to a target that host_is_non_global did not flag"""
+        if E.mode != "symbolic":
+            return replay_redirects(E)
+        I = E.I
+        allow = E.bool("allow_redirects")
+        HOPS = 12
+        is_redirect = [E.bool("hop%d_is_redirect" % i) for i in range(HOPS)]
+        target_internal = [E.bool("hop%d_target_internal" % i) for i in range(HOPS)]
+        transport_err = [E.bool("hop%d_transport_error" % i) for i in range(HOPS)]
+        calls = []       # guards of transport calls, in order
+        hop_targets = []  # (guard of "re-issue to this target", target_internal flag)
+
+        def transport(I_, args, pc):
+            k = len(calls)
+            calls.append(pc)
+            if k >= HOPS:
+                raise Exception("more transport call sites than modelled hops")
+            resp = VStruct("Response", {"redirect": is_redirect[k], "hop": VInt(k)})
+            return VEnum("Result", z3.If(transport_err[k].e, TAG("Result", "Err"), TAG("Result", "Ok")), {"Ok": [resp], "Err": [VEnum("Error", TAG("Error", "Transport"), {})]})
+
+        def redirect_location(I_, args, pc):
+            resp = args[0]
+            return opt(resp.fields["redirect"].e, VStr(bstr.lit("/next")))
+
+        def resolve_target(I_, args, pc):
+            return ok(VStruct("Uri", {"host": some(VStr(bstr.lit("h"))), "marker": VInt(len(hop_targets))}))
+
+        def host_check(I_, args, pc):
+            k = len(hop_targets)
+            hop_targets.append((pc, target_internal[min(k, HOPS - 1)]))
+            return target_internal[min(k, HOPS - 1)]
+
+        def build_req(I_, args, pc):
+            return ok(VStruct("Request", {"uri": args[3]}))
+        for name, fn in (("Transport::http_resolve", transport), ("redirect_location", redirect_location),
+                         ("resolve_redirect_target", resolve_target), ("host_is_non_global", host_check),
+                         ("build_redirected_request", build_req), ("sanitize_for_log", lambda I_, a, pc: VStr(bstr.lit("<log>"))),
+                         ("Request::uri", lambda I_, a, pc: a[0].fields["uri"]), ("Request::method", lambda I_, a, pc: VUnit()),
+                         ("Request::headers", lambda I_, a, pc: VUnit()), ("Request::body", lambda I_, a, pc: VUnit()),
+                         ("Uri::to_string", lambda I_, a, pc: VStr(bstr.lit("<uri>"))), ("Uri::clone", lambda I_, a, pc: a[0])):
+            I.overrides[name] = fn
+        resolver = VStruct("RedirectResolver", {"inner": VStruct("Transport", {}), "allow_redirects": allow})
+        req = VStruct("Request", {"uri": VStruct("Uri", {"host": some(VStr(bstr.lit("start"))), "marker": VInt(99)})})
+        res = E.call("<RedirectResolver as SyncHttpResolver>::http_resolve", resolver, req)
+        n_calls = bv(0)
+        for g in calls:
+            n_calls = n_calls + z3.If(g, bv(1), bv(0))
+        E.prove("at most eleven transport calls (the request plus ten redirects)", ule(n_calls, bv(11)))
+        E.prove("with redirects disabled the transport is called exactly once", z3.Implies(z3.Not(allow.e), n_calls == bv(1)))
+        E.prove("with redirects disabled a redirect response is an error", z3.Implies(z3.And(z3.Not(allow.e), is_redirect[0].e, z3.Not(transport_err[0].e)), z3.Not(is_ok(res))))
+        for i in range(1, len(calls)):
+            # the (i)th transport call re-issues to the target validated by the (i-1)th host check
+            if i - 1 < len(hop_targets):
+                E.prove("hop %d is re-issued only to a target that passed the internal-address check" % i,
+                        z3.Implies(calls[i], z3.And(hop_targets[i - 1][0], z3.Not(hop_targets[i - 1][1].e))))
+            else:
+                E.prove("hop %d is re-issued only after a target check" % i, z3.Not(calls[i]))
+        E.prove("an endless redirect chain ends in an error", z3.Implies(z3.And(allow.e, z3.And([z3.And(r.e, z3.Not(t.e), z3.Not(x.e)) for r, t, x in zip(is_redirect, target_internal, transport_err)])), z3.Not(is_ok(res))))
+        E.cover("ten redirects followed", n_calls == bv(11))
+        E.cover("chain stopped by an internal target at the third hop", z3.And(n_calls == bv(3), z3.Not(is_ok(res)), allow.e))
+        E.cover("successful two-hop chain", z3.And(n_calls == bv(3), is_ok(res)))
+
+    return [q_localhost_names, q_missing_host, q_ipv4_literal, q_obfuscated_numeric, q_hex_labels, q_headers, q_redirect_loop]
+
+
+def replay_redirects(E):
+    """native replay: scripted transport behind the real RedirectResolver"""
+    mi = E.model_inputs
+    hops = []
+    for i in range(12):
+        hops.append({"redirect": bool(mi.get("hop%d_is_redirect" % i, False)), "internal": bool(mi.get("hop%d_target_internal" % i, False)),
+                     "error": bool(mi.get("hop%d_transport_error" % i, False))})
+    r = E.native("redirect_chain", [bool(mi["allow_redirects"]), hops])
+    n = r["calls"]
+    E.prove("at most eleven transport calls (the request plus ten redirects)", z3.BoolVal(n <= 11))
+    E.prove("with redirects disabled the transport is called exactly once", z3.BoolVal(mi["allow_redirects"] or n == 1))
+    E.prove("with redirects disabled a redirect response is an error",
+            z3.BoolVal(mi["allow_redirects"] or not hops[0]["redirect"] or hops[0]["error"] or not r["ok"]))
+    for i in range(1, 13):
+        E.prove("hop %d is re-issued only to a target that passed the internal-address check" % i, z3.BoolVal(not r["reached_internal"]))
+        E.prove("hop %d is re-issued only after a target check" % i, z3.BoolVal(not r["reached_internal"]))
+    endless = mi["allow_redirects"] and all(h["redirect"] and not h["internal"] and not h["error"] for h in hops)
+    E.prove("an endless redirect chain ends in an error", z3.BoolVal((not endless) or not r["ok"]))
 
 
 # ---- models of the http request builder used by build_redirected_request -----------------------
